@@ -123,7 +123,13 @@ def tie_rich_definition(rng, name):
         a, b = sorted(rng.sample('abcdefgh', 2))
         pat = rng.choice(['[%s-%s]+' % (a, b), '[%s-%s][0-9a-z]?' % (a, b), '[%s-%s]{1,2}' % (a, b), '%s[a-z]*' % a])
         vs.append('    #[regex("%s", priority = %d)] V%d,' % (pat, rng.choice([1, 2, 2, 3, 3]), i))
-    return '#[derive(Logos, Debug, PartialEq, Clone)]\npub enum %s {\n%s\n}\n' % (name, '\n'.join(vs))
+    # some of the overlapping patterns are skips (ties among skips only, or between a skip and a variant)
+    hdr = ''
+    for j in range(rng.choice([0, 0, 1, 2])):
+        a, b = sorted(rng.sample('abcdefgh', 2))
+        pat = rng.choice(['[%s-%s]+' % (a, b), '[%s-%s][0-9a-z]?' % (a, b), '%s[a-z]*' % a])
+        hdr += '#[logos(skip("%s", priority = %d))]\n' % (pat, rng.choice([1, 2, 3, 3]))
+    return '#[derive(Logos, Debug, PartialEq, Clone)]\n%spub enum %s {\n%s\n}\n' % (hdr, name, '\n'.join(vs))
 
 
 def random_corpus(seed, count, prefix='R', **kw):
